@@ -21,6 +21,12 @@ type R8Info struct {
 	Lo, Hi  bool       // floor(h) <= 0 / floor(h) >= n: the estimate is clamped
 	Gap     float64    // largest |x_(s+1)-x_(s)| over the segments s = j-1, j, j+1
 	Mag     float64    // largest |x_(i)| over i = j-1 .. j+2
+	// [BLo,BHi] is the closed interval the estimate cannot leave: the two
+	// order statistics bracketing h, for every h' within 16 eps (h+1) of h
+	// (an implementation that rounds h a few times may sit on the other
+	// side of an integer than the exact h does). BLo == BHi when all order
+	// statistics that can be involved are equal.
+	BLo, BHi float64
 }
 
 func clamp01(q float64) float64 {
@@ -77,6 +83,34 @@ func R8(sorted []float64, q float64) R8Info {
 			}
 		}
 	}
+	// bracket over h' in [h-dh, h+dh], dh = 2^-48 (h+1); floor(h') <= 0
+	// and >= n are the clamped ends
+	dh := new(big.Rat).Add(h, big.NewRat(1, 1))
+	dh.Mul(dh, new(big.Rat).SetFrac(big.NewInt(1), new(big.Int).Lsh(big.NewInt(1), 48)))
+	ratFloor := func(r *big.Rat) int {
+		q, m := new(big.Int).DivMod(r.Num(), r.Denom(), new(big.Int)) // Euclidean: floor for a positive denominator
+		_ = m
+		if !q.IsInt64() || q.Int64() > int64(n)+1 {
+			return n + 1
+		}
+		if q.Int64() < -1 {
+			return -1
+		}
+		return int(q.Int64())
+	}
+	clampIdx := func(i int) int {
+		if i < 1 {
+			return 1
+		}
+		if i > n {
+			return n
+		}
+		return i
+	}
+	jl := ratFloor(new(big.Rat).Sub(h, dh))
+	jh := ratFloor(new(big.Rat).Add(h, dh))
+	info.BLo = sorted[clampIdx(jl)-1]
+	info.BHi = sorted[clampIdx(jh+1)-1]
 	return info
 }
 
@@ -207,6 +241,25 @@ func C10SelfTest() error {
 	}
 	if i := R8(one5, 0.1); i.Integer || i.J != 0 || !i.Lo {
 		return fmt.Errorf("R8 clamp detection: %+v", i)
+	}
+	// brackets: interior, on a break point (both neighbours' segments), clamped
+	if i := R8(one5, 0.4); i.J != 2 || i.BLo != 2 || i.BHi != 3 {
+		return fmt.Errorf("R8 bracket (interior): %+v", i)
+	}
+	if i := R8(one5, 0.5); i.BLo != 2 || i.BHi != 4 {
+		return fmt.Errorf("R8 bracket (break point): %+v", i)
+	}
+	if i := R8(one5, math.Nextafter(0.5, 0)); i.J != 2 || i.BLo != 2 || i.BHi != 4 {
+		return fmt.Errorf("R8 bracket (1 ulp below a break point): %+v", i)
+	}
+	if i := R8(one5, 0.01); i.BLo != 1 || i.BHi != 1 {
+		return fmt.Errorf("R8 bracket (low clamp): %+v", i)
+	}
+	if i := R8(one5, 0.99); i.BLo != 5 || i.BHi != 5 {
+		return fmt.Errorf("R8 bracket (high clamp): %+v", i)
+	}
+	if i := R8([]float64{7}, 0.3); i.BLo != 7 || i.BHi != 7 {
+		return fmt.Errorf("R8 bracket (n=1): %+v", i)
 	}
 	if q, exact := BreakQ(5, 1); q != 0.125 || !exact {
 		return fmt.Errorf("BreakQ(5,1)=%v,%v", q, exact)
